@@ -143,8 +143,14 @@ func admitFlag(ws []string, k string, dflt bool) bool {
 
 // admitSetup creates the market of the line (unless ex=0), the account's attributes and balance.
 func (e *admitEnv) admitSetup(a *app.App, ctx sdk.Context, ws []string) error {
+	pre, post := admitSteps(ws, "pre"), admitSteps(ws, "post")
+	for _, st := range pre {
+		if err := e.admitRunStep(a, ctx, st); err != nil {
+			return err
+		}
+	}
 	if admitFlag(ws, "ex", true) {
-		_, err := a.ExchangeKeeper.CreateMarket(ctx, exchange.Market{
+		market := exchange.Market{
 			MarketId:                  admitMarketID,
 			MarketDetails:             exchange.MarketDetails{Name: "verif c20"},
 			FeeCreateAskFlat:          admitCoins(ws, "caf"),
@@ -160,9 +166,23 @@ func (e *admitEnv) admitSetup(a *app.App, ctx sdk.Context, ws []string) error {
 			ReqAttrCreateAsk:          admitStrs(ws, "ra"),
 			ReqAttrCreateBid:          admitStrs(ws, "rb"),
 			ReqAttrCreateCommitment:   admitStrs(ws, "rc"),
-		})
-		if err != nil {
-			return fmt.Errorf("create market: %w", err)
+		}
+		done := false
+		if len(pre)+len(post) > 0 {
+			var err error
+			if done, err = e.admitCreateByGov(a, ctx, market); err != nil {
+				return fmt.Errorf("gov create market: %w", err)
+			}
+		}
+		if !done {
+			if _, err := a.ExchangeKeeper.CreateMarket(ctx, market); err != nil {
+				return fmt.Errorf("create market: %w", err)
+			}
+		}
+	}
+	for _, st := range post {
+		if err := e.admitRunStep(a, ctx, st); err != nil {
+			return err
 		}
 	}
 	for _, name := range admitStrs(ws, "attrs") {
@@ -196,6 +216,9 @@ func admitClass(err error) string {
 		return "err:usersettle"
 	case has("is not allowed to create"):
 		return "err:attr"
+	case has("insufficient buyer settlement fee"):
+		// may quote a ratio that could not be applied to the price ("cannot apply ratio … result too large")
+		return "err:fee"
 	case has("is not more than"), has("no seller settlement fee ratio found"), has("cannot apply ratio"):
 		return "err:price"
 	case has("error collecting"), has("error placing hold"), has("is less than hold amount"), has("insufficient funds"):
@@ -730,33 +753,7 @@ func (g *admitGen) reqAndAttrsP(unnorm bool, matchPct int) (reqs, attrs []string
 		}
 		seenR[req] = true
 		reqs = append(reqs, req)
-		var acc string
-		k := g.r.Intn(100)
-		if k >= matchPct {
-			k = 55 + (k-matchPct)*45/(100-matchPct)
-		} else {
-			k = 0
-		}
-		switch {
-		case k < 55: // a match
-			if wild {
-				acc = g.name() + "." + base
-			} else {
-				acc = base
-			}
-		case k < 65: // the wildcard's own base / an extra level on an exact requirement
-			if wild {
-				acc = base
-			} else {
-				acc = Pick(g.r, admitSegs) + "." + base
-			}
-		case k < 75: // a segment that only ends with the required first segment
-			acc = "us.evil" + base
-		case k < 85:
-			acc = g.name()
-		default:
-			acc = ""
-		}
+		acc := g.accFor(base, wild, matchPct)
 		if acc != "" && !seenA[acc] && len(strings.Split(acc, ".")) <= 8 {
 			seenA[acc] = true
 			attrs = append(attrs, acc)
@@ -783,6 +780,38 @@ func (g *admitGen) reqAndAttrsP(unnorm bool, matchPct int) (reqs, attrs []string
 		}
 	}
 	return reqs, attrs
+}
+
+// accFor picks an account attribute for one requirement: a match, a near miss, or nothing.
+func (g *admitGen) accFor(base string, wild bool, matchPct int) string {
+	var acc string
+	k := g.r.Intn(100)
+	if k >= matchPct {
+		k = 55 + (k-matchPct)*45/(100-matchPct)
+	} else {
+		k = 0
+	}
+	switch {
+	case k < 55: // a match
+		if wild {
+			acc = g.name() + "." + base
+		} else {
+			acc = base
+		}
+	case k < 65: // the wildcard's own base / an extra level on an exact requirement
+		if wild {
+			acc = base
+		} else {
+			acc = Pick(g.r, admitSegs) + "." + base
+		}
+	case k < 75: // a segment that only ends with the required first segment
+		acc = "us.evil" + base
+	case k < 85:
+		acc = g.name()
+	default:
+		acc = ""
+	}
+	return acc
 }
 
 func admitStrsStr(xs []string) string {
@@ -847,16 +876,23 @@ func addNeed(need map[string]*big.Int, c *admitCoinT) {
 	}
 }
 
-func (g *admitGen) flagsStr(kind string) (string, bool, bool, bool, bool) {
-	ex := !g.r.Chance(6)
-	ao := !g.r.Chance(10)
-	us := g.r.Chance(80)
-	ac := g.r.Chance(85)
+// flags draws the existence of the market and its three flags into cfg.
+func (g *admitGen) flags(kind string, c *admitCfg) (ex bool) {
+	ex = !g.r.Chance(6)
+	c.ao = !g.r.Chance(10)
+	c.us = g.r.Chance(80)
+	c.ac = g.r.Chance(85)
 	if kind == "order" {
-		us = g.r.Bool()
+		c.us = g.r.Bool()
 	}
-	return fmt.Sprintf("ex=%s ao=%s us=%s ac=%s", b2s(ex), b2s(ao), b2s(us), b2s(ac)), ex, ao, us, ac
+	return ex
 }
+
+func admitFlagsStr(ex bool, c *admitCfg) string {
+	return fmt.Sprintf("ex=%s ao=%s us=%s ac=%s", b2s(ex), b2s(c.ao), b2s(c.us), b2s(c.ac))
+}
+
+const admitHistPct = 35
 
 var admitOddStrings = []string{"%", "*.", "*", ".", "*.a", ".a", "a.", "a..b", "*..a", "*.*.a", "a", "*a.b", "*.kyc", "kyc", "x.kyc", ".kyc", "*.kyc.pb", "kyc.pb", "us.kyc.pb", "us.evilkyc.pb", "a.us.kyc.pb"}
 
@@ -956,11 +992,19 @@ func (g *admitGen) op() string {
 		return fmt.Sprintf("cancreate kind=%s reqs=%s attrs=%s", kind, admitStrsStr(reqs), admitStrsStr(attrs))
 	case k < 810:
 		g.out.Count("op:createask")
-		flags, _, _, _, _ := g.flagsStr("order")
+		req := admitNewCfg()
+		ex := g.flags("order", req)
 		caf, ssf := g.flats(true), g.flats(true)
 		ssr := g.sellerRatios(true)
 		reqs, attrs := g.reqAndAttrsP(r.Chance(15), 88)
-		p := g.price(ssr)
+		req.flats["caf"], req.flats["ssf"], req.ratios["ssr"], req.reqs["ra"] = caf, ssf, ssr, admitNormAll(reqs)
+		aim, hist := req, ""
+		if r.Chance(admitHistPct) {
+			h := g.history("createask", req, &ex)
+			aim, hist = h.aim, h.String()
+			attrs = g.attrsFor(aim.reqs["ra"], 88)
+		}
+		p := g.price(aim.ratios["ssr"])
 		if p.a.BitLen() > 100 {
 			p.a = g.smallAmt()
 		}
@@ -968,8 +1012,8 @@ func (g *admitGen) op() string {
 		if r.Chance(3) {
 			assets.d = p.d
 		}
-		sflat := g.flatOffer(ssf, true)
-		cfee := g.flatOffer(caf, false)
+		sflat := g.flatOffer(aim.flats["ssf"], true)
+		cfee := g.flatOffer(aim.flats["caf"], false)
 		need := map[string]*big.Int{}
 		addNeed(need, &assets)
 		addNeed(need, cfee)
@@ -977,21 +1021,29 @@ func (g *admitGen) op() string {
 			addNeed(need, sflat)
 		}
 		return fmt.Sprintf("createask %s caf=%s ssf=%s ssr=%s ra=%s attrs=%s bal=%s assets=%s price=%s sflat=%s cfee=%s",
-			flags, admitCoinsStr(caf), admitCoinsStr(ssf), admitRatiosStr(ssr), admitStrsStr(reqs), admitStrsStr(attrs),
-			g.fund(need), admitCoinStr(&assets), admitCoinStr(&p), admitCoinStr(sflat), admitCoinStr(cfee))
+			admitFlagsStr(ex, req), admitCoinsStr(caf), admitCoinsStr(ssf), admitRatiosStr(ssr), admitStrsStr(reqs), admitStrsStr(attrs),
+			g.fund(need), admitCoinStr(&assets), admitCoinStr(&p), admitCoinStr(sflat), admitCoinStr(cfee)) + hist
 	case k < 900:
 		g.out.Count("op:createbid")
-		flags, _, _, _, _ := g.flagsStr("order")
+		req := admitNewCfg()
+		ex := g.flags("order", req)
 		cbf, bsf := g.flats(true), g.flats(true)
 		bsr := g.buyerRatios(true)
 		reqs, attrs := g.reqAndAttrsP(r.Chance(15), 88)
-		p := g.price(bsr)
+		req.flats["cbf"], req.flats["bsf"], req.ratios["bsr"], req.reqs["rb"] = cbf, bsf, bsr, admitNormAll(reqs)
+		aim, hist := req, ""
+		if r.Chance(admitHistPct) {
+			h := g.history("createbid", req, &ex)
+			aim, hist = h.aim, h.String()
+			attrs = g.attrsFor(aim.reqs["rb"], 88)
+		}
+		p := g.price(aim.ratios["bsr"])
 		if p.a.BitLen() > 100 {
 			p.a = g.smallAmt()
 		}
 		assets := admitCoinT{"apple", g.smallAmt()}
-		fees := g.buyerOffer(bsf, bsr, p)
-		cfee := g.flatOffer(cbf, false)
+		fees := g.buyerOffer(aim.flats["bsf"], aim.ratios["bsr"], p)
+		cfee := g.flatOffer(aim.flats["cbf"], false)
 		need := map[string]*big.Int{}
 		addNeed(need, &p)
 		addNeed(need, cfee)
@@ -999,44 +1051,68 @@ func (g *admitGen) op() string {
 			addNeed(need, &fees[i])
 		}
 		return fmt.Sprintf("createbid %s cbf=%s bsf=%s bsr=%s rb=%s attrs=%s bal=%s assets=%s price=%s fees=%s cfee=%s",
-			flags, admitCoinsStr(cbf), admitCoinsStr(bsf), admitRatiosStr(bsr), admitStrsStr(reqs), admitStrsStr(attrs),
-			g.fund(need), admitCoinStr(&assets), admitCoinStr(&p), admitCoinsStr(fees), admitCoinStr(cfee))
+			admitFlagsStr(ex, req), admitCoinsStr(cbf), admitCoinsStr(bsf), admitRatiosStr(bsr), admitStrsStr(reqs), admitStrsStr(attrs),
+			g.fund(need), admitCoinStr(&assets), admitCoinStr(&p), admitCoinsStr(fees), admitCoinStr(cfee)) + hist
 	case k < 950:
 		g.out.Count("op:commit")
-		flags, _, _, _, _ := g.flagsStr("commit")
+		req := admitNewCfg()
+		ex := g.flags("commit", req)
 		ccf := g.flats(true)
 		reqs, attrs := g.reqAndAttrsP(r.Chance(12), 88)
+		req.flats["ccf"], req.reqs["rc"] = ccf, admitNormAll(reqs)
+		aim, hist := req, ""
+		if r.Chance(admitHistPct) {
+			h := g.history("commit", req, &ex)
+			aim, hist = h.aim, h.String()
+			attrs = g.attrsFor(aim.reqs["rc"], 88)
+		}
 		var amount []admitCoinT
 		for _, d := range g.denomSubset(1 + r.Intn(2)) {
 			amount = append(amount, admitCoinT{d, g.smallAmt()})
 		}
 		sort.Slice(amount, func(i, j int) bool { return amount[i].d < amount[j].d })
-		cfee := g.flatOffer(ccf, false)
+		cfee := g.flatOffer(aim.flats["ccf"], false)
 		need := map[string]*big.Int{}
 		addNeed(need, cfee)
 		for i := range amount {
 			addNeed(need, &amount[i])
 		}
 		return fmt.Sprintf("commit %s ccf=%s rc=%s attrs=%s bal=%s amount=%s cfee=%s",
-			flags, admitCoinsStr(ccf), admitStrsStr(reqs), admitStrsStr(attrs), g.fund(need), admitCoinsStr(amount), admitCoinStr(cfee))
+			admitFlagsStr(ex, req), admitCoinsStr(ccf), admitStrsStr(reqs), admitStrsStr(attrs), g.fund(need), admitCoinsStr(amount), admitCoinStr(cfee)) + hist
 	case k < 975:
 		g.out.Count("op:fillbids")
-		flags, _, _, _, _ := g.flagsStr("fill")
+		req := admitNewCfg()
+		ex := g.flags("fill", req)
 		caf, ssf := g.flats(true), g.flats(true)
 		reqs, attrs := g.reqAndAttrsP(false, 88)
+		req.flats["caf"], req.flats["ssf"], req.reqs["ra"] = caf, ssf, admitNormAll(reqs)
+		aim, hist := req, ""
+		if r.Chance(admitHistPct) {
+			h := g.history("fillbids", req, &ex)
+			aim, hist = h.aim, h.String()
+			attrs = g.attrsFor(aim.reqs["ra"], 88)
+		}
 		return fmt.Sprintf("fillbids %s caf=%s ssf=%s ra=%s attrs=%s bal=- sflat=%s cfee=%s",
-			flags, admitCoinsStr(caf), admitCoinsStr(ssf), admitStrsStr(reqs), admitStrsStr(attrs),
-			admitCoinStr(g.flatOffer(ssf, true)), admitCoinStr(g.flatOffer(caf, true)))
+			admitFlagsStr(ex, req), admitCoinsStr(caf), admitCoinsStr(ssf), admitStrsStr(reqs), admitStrsStr(attrs),
+			admitCoinStr(g.flatOffer(aim.flats["ssf"], true)), admitCoinStr(g.flatOffer(aim.flats["caf"], true))) + hist
 	default:
 		g.out.Count("op:fillasks")
-		flags, _, _, _, _ := g.flagsStr("fill")
+		req := admitNewCfg()
+		ex := g.flags("fill", req)
 		cbf, bsf := g.flats(true), g.flats(true)
 		bsr := g.buyerRatios(true)
 		reqs, attrs := g.reqAndAttrsP(false, 88)
-		p := g.price(bsr)
+		req.flats["cbf"], req.flats["bsf"], req.ratios["bsr"], req.reqs["rb"] = cbf, bsf, bsr, admitNormAll(reqs)
+		aim, hist := req, ""
+		if r.Chance(admitHistPct) {
+			h := g.history("fillasks", req, &ex)
+			aim, hist = h.aim, h.String()
+			attrs = g.attrsFor(aim.reqs["rb"], 88)
+		}
+		p := g.price(aim.ratios["bsr"])
 		return fmt.Sprintf("fillasks %s cbf=%s bsf=%s bsr=%s rb=%s attrs=%s bal=- price=%s fees=%s cfee=%s",
-			flags, admitCoinsStr(cbf), admitCoinsStr(bsf), admitRatiosStr(bsr), admitStrsStr(reqs), admitStrsStr(attrs),
-			admitCoinStr(&p), admitCoinsStr(g.buyerOffer(bsf, bsr, p)), admitCoinStr(g.flatOffer(cbf, true)))
+			admitFlagsStr(ex, req), admitCoinsStr(cbf), admitCoinsStr(bsf), admitRatiosStr(bsr), admitStrsStr(reqs), admitStrsStr(attrs),
+			admitCoinStr(&p), admitCoinsStr(g.buyerOffer(aim.flats["bsf"], aim.ratios["bsr"], p)), admitCoinStr(g.flatOffer(aim.flats["cbf"], true))) + hist
 	}
 }
 
